@@ -1,6 +1,6 @@
 (* bn.lua: integer literal reader (bases 2/10/16), tohexint / tobinint / todecint, compress *)
-From C17 Require Import Model Model2 Model3 Proofs ProofsLib ProofsArith ProofsBits ProofsConv ProofsShift ProofsMisc
-  ProofsDiv ProofsText ProofsText2.
+From C17 Require Import Model Model2 Model3 Proofs ProofsLib ProofsArith ProofsMul ProofsBits ProofsConv ProofsShift ProofsMisc
+  ProofsSudiv ProofsText ProofsText2.
 From Coq Require Import ZifyBool.
 Local Open Scope Z_scope.
 Ltac Zify.zify_post_hook ::= Z.div_mod_to_equations.
